@@ -60,6 +60,7 @@ pub struct Monitors {
     pub pool: Vec<(Rc<Payload>, BitSet, BitSet)>,
     pub sp: crate::special::SpecialState,
     pub anchors: crate::anchors::AnchorState,
+    pub events: crate::eventsmon::EventsState,
 }
 
 impl Monitors {
@@ -94,6 +95,7 @@ impl Monitors {
             pool: Vec::new(),
             sp: crate::special::SpecialState::new(cfg, nodes),
             anchors: Default::default(),
+            events: Default::default(),
         }
     }
 }
